@@ -31,7 +31,8 @@ EXPLANATION = (
     "method the pipeline calls polymorphically accepts the arguments of the pipeline's call; R1.7 no `raise` in the "
     "pipeline core and no `d.get(k).attr` dereference on a registry from which entries can be removed at run time; R1.8 every "
     "explicit raise reachable in the resolved call graph (depth 4) from a request handler is triaged in a frozen table "
-    "(guarded on that route, or reported) - a new one is a violation (may-analysis: reachable, not necessarily raised). "
+    "(guarded on that route, or reported) - a new one is a violation (may-analysis: reachable, not necessarily raised); "
+    "R1.9 use-then-check: no local is dereferenced on every path before the function's own None/truthiness test of it. "
     "NOT decided: that no input whatsoever makes a library call raise (KeyError/IndexError/validation errors on "
     "run-time values) and finiteness of rewards as numbers."
 )
@@ -511,7 +512,87 @@ def r1_8(ctx: Ctx) -> None:
     ctx.count("functions in the request-handler closure (depth 4)", len(seen))
 
 
+def r1_9(ctx: Ctx) -> None:
+    """Engler-style contradiction: use, then check."""
+    ix = ctx.ix
+    ctx.rule("R1.9", "no local is dereferenced on every path *before* the function itself tests it for None / truthiness "
+                     "(the later test states the belief that it may be None; the earlier dereference then raises)")
+
+    def derefs(node: CNode, name: str) -> bool:
+        r = node.expr_root()
+        if r is None or isinstance(r, (ast.FunctionDef, ast.AsyncFunctionDef, ast.ClassDef, ast.ExceptHandler)):
+            return False
+        for n in walk_shallow(r):
+            if isinstance(n, (ast.Attribute, ast.Subscript)) and isinstance(n.value, ast.Name) and n.value.id == name:
+                return True
+            if isinstance(n, ast.Call) and isinstance(n.func, ast.Name) and n.func.id == name:
+                return True
+        return False
+
+    def binds(node: CNode, name: str) -> bool:
+        a = node.ast
+
+        def names(t):
+            if isinstance(t, ast.Name):
+                yield t.id
+            elif isinstance(t, (ast.Tuple, ast.List)):
+                for e in t.elts:
+                    yield from names(e)
+            elif isinstance(t, ast.Starred):
+                yield from names(t.value)
+
+        if node.kind == "for":
+            return name in set(names(a.target))
+        if node.kind == "with":
+            return any(it.optional_vars is not None and name in set(names(it.optional_vars)) for it in a.items)
+        if isinstance(a, (ast.Assign, ast.AnnAssign, ast.AugAssign)):
+            tg = a.targets if isinstance(a, ast.Assign) else [a.target]
+            return any(name in set(names(x)) for x in tg)
+        return any(isinstance(x, ast.NamedExpr) and x.target.id == name for x in ast.walk(a)) if a is not None else False
+
+    n_checks = 0
+    for f in ix.functions:
+        if isinstance(f.node, ast.Lambda):
+            continue
+        if not any(isinstance(x, (ast.If, ast.IfExp, ast.While, ast.Assert)) for x in ast.walk(f.node)):
+            continue
+        g = CFG(f.node)
+        checks = []
+        for n in g.nodes:
+            if n.kind != "cond":
+                continue
+            e = n.ast
+            nm = None
+            if isinstance(e, ast.Name):
+                nm = e.id
+            elif isinstance(e, ast.Compare) and len(e.ops) == 1 and isinstance(e.ops[0], (ast.Is, ast.IsNot)) and isinstance(e.left, ast.Name) \
+                    and isinstance(e.comparators[0], ast.Constant) and e.comparators[0].value is None:
+                nm = e.left.id
+            if nm and nm not in ("self", "cls"):
+                checks.append((n, nm))
+        if not checks:
+            continue
+        dom = g.dominators()
+        for cn, nm in checks:
+            n_checks += 1
+            blockers = {x.id for x in g.nodes if x.kind != "entry" and binds(x, nm)}
+            for d in g.nodes:
+                if d is cn or d.kind == "entry" or d.id not in dom.get(cn.id, ()) or d.id in blockers:
+                    continue
+                if not derefs(d, nm):
+                    continue
+                p = g.path_avoiding([cn], lambda e: False, start=d, blocked_nodes=blockers)
+                if p is not None:
+                    ctx.fail("R1.9", ctx.key(f, f"`{nm}` is tested before it is dereferenced"), f.loc(d.ast),
+                             f"`{unparse(d.expr_root())[:60]}` (line {d.lineno}) dereferences `{nm}` on every path to the test "
+                             f"`{unparse(cn.ast)[:40]}` (line {cn.lineno}): when `{nm}` is None the function raises before it can take the branch that handles it")
+                    break
+    ctx.floor("R1.9", "None/truthiness tests of locals inspected", n_checks, 300)
+    ctx.ok("R1.9", "src/primaite::<package>::use-then-check contradictions", "", f"{n_checks} tests of locals inspected, none is preceded on every path by a dereference of the same local")
+
+
 def check(ctx: Ctx) -> None:
+    r1_9(ctx)
     r1_8(ctx)
     r1_1(ctx)
     r1_2(ctx)
